@@ -1,4 +1,5 @@
 import PhyloModel.Props.C06
+import PhyloModel.Props.C06Inv
 #print axioms C06.rf_eq
 #print axioms C06.delta_is_symmetric_difference
 #print axioms C06.rf_shape
@@ -10,3 +11,8 @@ import PhyloModel.Props.C06
 #print axioms C06.rf_zero_of_same_splits
 #print axioms C06.rf_equals_report
 #print axioms C06.withLengths_sides
+#print axioms C06.rf_reorder_self
+#print axioms C06.rf_reorder_invariant
+#print axioms C06.rf_unary_invariant
+#print axioms C06.rf_root_style
+#print axioms C06.rf_rename_invariant
